@@ -14,24 +14,27 @@ import (
 //	                inside NewCircuitMap
 //	race            2-3 concurrent clients interleaved at every database
 //	                transaction entry; porcupine linearizability check
+//	enum            the 48 interleavings of close/fail/delete on one circuit
 func Run(r *simcore.Run, thorough bool) {
-	arm := r.Tape.CfgDraw(8)
-	if only := os.Getenv("VERIF_C07_ARM"); only != "" {
-		switch only {
-		case "seq":
-			arm = 0
-		case "faulty":
-			arm = 3
-		case "race":
-			arm = 6
-		}
+	arm := r.Tape.CfgDraw(16)
+	switch os.Getenv("VERIF_C07_ARM") { // debugging aid; replays need the same setting
+	case "seq":
+		arm = 0
+	case "faulty":
+		arm = 5
+	case "race":
+		arm = 10
+	case "enum":
+		arm = 15
 	}
 	switch {
-	case arm < 3:
-		RunSeq(r, false)
-	case arm < 6:
-		RunSeq(r, true)
-	default:
+	case arm < 5:
+		RunSeq(r, false, thorough)
+	case arm < 10:
+		RunSeq(r, true, thorough)
+	case arm < 15:
 		RunRace(r, thorough)
+	default:
+		RunEnum(r)
 	}
 }
